@@ -109,6 +109,9 @@ QUICK = [
     # element whose move operations are not noexcept (the noexcept(false) variants of every helper), partner with a narrower size_type
     VCfg("v", 0, "NTRTM", "basic", "uint32_t", "s8_4"),
     VCfg("s", 4, "NTRTM", "basic", "uint32_t", "v"),  # .. with inline storage: the inline-storage promise does not depend on the nothrow-ness of the moves
+    # large inline capacities: the large-scale histories swap / move / shift thousands of elements held inside the object
+    VCfg("f", 1500, "TC4", "none", "uint16_t", "s3"),
+    VCfg("s", 400, "TR", "basic", "uint32_t", "v"),
     # same width, other signedness of the size types of the two swap2 operands
     VCfg("v", 0, "TR", "basic", "uint8_t", "si8_4"),
     # raw arithmetic elements (std::is_arithmetic / is_trivial special cases; +0.0 / -0.0 / NaN values)
